@@ -27,6 +27,10 @@ K_NEXT_VERSION = dict(name="c02_next_version__next_version", function="Change::n
                       bound="none: all i32 x i32 x bool, loop-free", src="src/lib/bo.rs (Change::next_version)", timeout=600)
 K_LIVE_VERSION = dict(name="c06_live_version__live_version", function="live_version", label="C06.live-version-kani", complete=True,
                       bound="none: all i32, loop-free", src="src/lib/bo.rs (live_version)", timeout=600)
+K_STATUS_CODEC = dict(name="c06_status_codec__value_status", function="ValueStatus / ConsensuStrategy codecs", label="C06.status-codec-kani", complete=True,
+                      bound="none: all i32, loop-free", src="src/lib/bo.rs (ValueStatus::{from,to_le_bytes}, ConsensuStrategy::{from,to_le_bytes})", timeout=600)
+K_ROLE_CODEC = dict(name="c07_role_codec__cluster_role", function="ClusterRole::from(usize)", label="C07.role-codec-kani", complete=True,
+                    bound="none: the three role words 0..=2, loop-free", src="src/lib/bo.rs (impl From<usize> for ClusterRole)", timeout=600)
 K_FILTER = dict(name="c08_listing_hides_secure__filter_system_keys", function="filter_system_keys", label="C08.listing-hides-secure", complete=False,
                 bound="key <= 3 printable ASCII bytes (the function inspects only the 2-byte prefix)", src="src/lib/bo.rs (filter_system_keys)", timeout=900,
                 tier="thorough")
@@ -175,7 +179,7 @@ PROPS = {
     ),
     "C06": dict(
         units=["snapshot", "store"],
-        kani=[K_LIVE_VERSION],
+        kani=[K_LIVE_VERSION, K_STATUS_CODEC],
         undecided=["file-system glue: that the files an incremental snapshot or the loader opens are the files the previous snapshot left (get_key_file_append_mode / "
                    "get_values_file_append_mode / get_key_write_mode: rename, remove, open) - trusted externals; the chain lemma C06.invariant-chains is about byte sequences",
                    "that the snapshot driver calls write_metadata_file and that the file a restart opens is the file it wrote (the two functions themselves are verified: 12 bytes, "
@@ -198,6 +202,7 @@ PROPS = {
     ),
     "C07": dict(
         units=["election", "members"],
+        kani=[K_ROLE_CODEC],
         undecided=["the protocol half of the statement: that after any interleaving of candidacies, acknowledgements and set-primary messages between 2-3 nodes exactly one node "
                    "is Primary and all nodes name the same one (a global invariant over several processes and message orders; no contract on one call states it)",
                    "the SetPrimary / Join / Leave / ElectionWin dispatcher arms (their bodies are closures handed to apply_if_auth; R10 abstracts closure bodies) and the "
